@@ -147,7 +147,9 @@ fn sample_desc(w: &WriterModel, sn: i64, big_mask: u32, focus: Focus) -> SampleD
 #[derive(Clone, Debug)]
 enum Sub {
   Data { w: usize, sn: i64 },
-  Frag { w: usize, sn: i64, start: u32, count: u16 },
+  /// `short`: bytes missing at the end of the payload (a well-formed DATAFRAG that carries less
+  /// than its fragments need); 0 = complete
+  Frag { w: usize, sn: i64, start: u32, count: u16, short: u16 },
   Hb { w: usize, first: i64, last: i64, count: i32, fin: bool },
   Gap { w: usize, start: i64, base: i64, bits: BTreeSet<i64>, num_bits: u32 },
 }
@@ -383,10 +385,6 @@ pub fn run(focus: Focus, choices: &[u8], _strict: bool) -> Outcome {
             } else {
               1 + c.pick(total as usize) as u32
             };
-            have.insert(start);
-            if have.len() as u32 == total {
-              gen_frags.remove(&(w, sn));
-            }
             // several fragments per DATAFRAG (groups may overlap what is already there): often
             // for C05, now and then for the others too
             let count = if c.chance(if focus == Focus::C05 { 50 } else { 25 }) {
@@ -394,7 +392,16 @@ pub fn run(focus: Focus, choices: &[u8], _strict: bool) -> Outcome {
             } else {
               1
             };
-            Sub::Frag { w, sn, start, count }
+            // now and then the DATAFRAG carries fewer bytes than its fragments need
+            let short = if c.chance(if focus == Focus::C05 { 28 } else { 8 }) { 1 + c.pick(writers[w].fsize as usize) as u16 } else { 0 };
+            if short == 0 {
+              let have = gen_frags.entry((w, sn)).or_default();
+              have.insert(start);
+              if have.len() as u32 == total {
+                gen_frags.remove(&(w, sn));
+              }
+            }
+            Sub::Frag { w, sn, start, count, short }
           }
         }
         2 => {
@@ -528,7 +535,7 @@ pub fn run(focus: Focus, choices: &[u8], _strict: bool) -> Outcome {
                 );
               }
             }
-            Sub::Frag { w, sn, start, count } => {
+            Sub::Frag { w, sn, start, count, short } => {
               let d = sample_desc(&writers[*w], *sn, big_mask, focus);
               let fs = writers[*w].fsize as usize;
               if d.ts != ts_in_force {
@@ -538,6 +545,10 @@ pub fn run(focus: Focus, choices: &[u8], _strict: bool) -> Outcome {
               }
               let from = (*start as usize - 1) * fs;
               let to = ((*start as usize - 1 + *count as usize) * fs).min(d.payload.len());
+              // a short DATAFRAG keeps at least one byte; it is well-formed (its length field says
+              // what it carries) but incomplete
+              let cut = (*short as usize).min(to - from - 1);
+              let to_wire = to - cut;
               let spec = wire::DataFragSpec {
                 reader_id: rid,
                 writer_id: writers[*w].eid,
@@ -547,11 +558,23 @@ pub fn run(focus: Focus, choices: &[u8], _strict: bool) -> Outcome {
                 frag_size: fs as u16,
                 sample_size: d.payload.len() as u32,
                 inline_qos: None,
-                payload: d.payload[from..to].to_vec(),
+                payload: d.payload[from..to_wire].to_vec(),
                 key_flag: false,
               };
               let (f, b) = wire::data_frag_body(*le, &spec);
               wire::push_submessage(&mut dg, wire::DATA_FRAG, f, &b, None);
+              if cut > 0 {
+                // model: fragments that did not arrive completely have not arrived
+                o.label("short-datafrag");
+                writers[*w].assembler_exists = true;
+                // ... but the sample counts as started: whether the reader then asks for it as a
+                // whole (ACKNACK) or fragment by fragment (NACKFRAG naming all of them) is left open
+                if !arrived[*w].contains(sn) {
+                  writers[*w].frags.entry(*sn).or_default();
+                }
+                last_frag_key = Some((*w, *sn));
+                continue;
+              }
               if *count > 1 {
                 o.label("multi-frag-submessage");
               }
